@@ -477,6 +477,21 @@ theorem soundE_succ : SoundE env (f + 1) := by
         · simp at hty
       obtain ⟨g1, g2⟩ := hI body xs st st' (.pair k v) hall hw.2 hk.1 hev
       exact ⟨g1, by rw [hk.2, g2]⟩
+    · rename_i t xs
+      have hall := allTy_iff.mp ((wf_set t xs).mp hw.1)
+      simp only [Spec.eval] at hev
+      simp only [List.map_cons, typeOf, typeInstr] at hty
+      have hk : BodyKeeps body t (st.map typeOf) ∧ tr = .ok (st.map typeOf) := by
+        unfold BodyKeeps
+        split at hty
+        · rename_i s' heq
+          split at hty
+          · rename_i hs; subst hs; simp at hty; exact ⟨Or.inl heq, hty.symm⟩
+          · simp at hty
+        · rename_i heq; simp at hty; exact ⟨Or.inr heq, hty.symm⟩
+        · simp at hty
+      obtain ⟨g1, g2⟩ := hI body xs st st' t hall hw.2 hk.1 hev
+      exact ⟨g1, by rw [hk.2, g2]⟩
   case MAP body =>
     rcases st with _ | ⟨c, st⟩
     · simp [Spec.eval, Spec.step] at hev
